@@ -266,9 +266,6 @@ pub struct Plan {
     /// the only handles)
     #[serde(default = "yes")]
     pub keep_main_handle: bool,
-    /// run with a TRACE-level tracing subscriber installed (evaluates the logging expressions)
-    #[serde(default)]
-    pub tracing: bool,
 }
 
 fn yes() -> bool {
@@ -292,7 +289,6 @@ impl Plan {
             consumer: Consumer::Drain,
             probe_request: true,
             keep_main_handle: true,
-            tracing: false,
         }
     }
 
